@@ -35,6 +35,18 @@ def linecol(text, pos):
     return (line, col + 1)
 
 
+def linecol_true(text, pos):
+    """1-based line counting every line break of the grammar's NEWLINE token (\r\n, \r, \n) and 1-based column"""
+    import re
+    line = 1
+    last = 0
+    for m in re.finditer(r"\r\n|\r|\n", text[:pos]):
+        if m.end() <= pos:
+            line += 1
+            last = m.end()
+    return (line, pos - last + 1)
+
+
 def token_starts(text, toks):
     """set of (line, col1) at which a token starts, plus end of input"""
     s = {linecol(text, t[2]) for t in toks}
